@@ -186,6 +186,61 @@ CHECKS["C08"] = {
   "technique": "Coq proof (per-step theorems over all op lists) + differential correspondence",
 }
 
+CHECKS["C10"] = {'design_ref': 'DESIGN.md section 6 C10',
+ 'note': 'Trusted: Coq kernel, hand-written model, extraction, drivers, generators. No axioms. Not covered: '
+         'the socket-level clauses of C10 (unparseable datagrams, unknown peers / connection ids, '
+         'cross-contamination between connections). Assumed-and-monitored: transport legitimacy (no invented '
+         'EMSGSIZE, limit >= family minimum, limit fixed before the first poll) as a guard inside '
+         'c10_step_ok. Known classes reported through known_findings.json ids KF2, D13.',
+ 'technique': 'Coq proof (joint invariant, Hoare-style lemmas per function of VirtualSocket::poll) + '
+              'differential correspondence + extracted predicates on impl traces (shared + hostile '
+              'generators)',
+ 'text': 'PARTIAL (single-connection half only; poll is covered function by function, not yet composed into '
+         'one theorem about VirtualSocket::poll). Theorems over the Gallina model of stream_dispatch.rs for '
+         'an arbitrary congestion controller: a joint invariant vs_inv (rx_inv, seg_inv, tx_inv, the '
+         'ring/segment-table byte relation, segment-size and RTO-state well-formedness, duplicate-ACK '
+         'counter range) holds of every freshly built connection with a valid configuration and is preserved '
+         'by every application/environment event; send_data, send_tx_queue (RTO branch, recovery loop, '
+         'new-data loop, probe pop) and split_tx_queue_into_segments preserve it and reach neither a panic '
+         '(offset underflow, RTO-estimator overflow, next_segment_size overflow) nor '
+         'BugOffsetBeyondBufferBounds / BugRequestedLengthExceedsBufferBounds / BugInBufferComputations, and '
+         'BugEmsgSizeNoProbe only if the transport answers EMSGSIZE (strict = true excludes it); state_table '
+         'reports BugRecvInClosed / BugUnexpectedPacketInSynReceived only from those two states and '
+         'SynReceived never reaches the message loop; UserRx::add_remove with ST_DATA/ST_FIN never yields '
+         'BugInvalidMessage / BugAssemblerMissingSlot / a panic; truncate_front by the bytes acknowledged in '
+         'one poll never yields BugTruncateFront; bounded buffering (ring <= cap <= max(initial,max), user '
+         'queue <= rx buffer, reassembly queue <= its slot capacity, segmented bytes <= ring). NOT proved: '
+         'the invariant across process_incoming_message / recv_loop / process_all_incoming_messages '
+         '(remove_up_to_ack, rtte.sample and calc_pipe panics are therefore not excluded by a theorem), the '
+         "composition through poll_body, the bound on poll's restart loop. Refutation witnesses, each "
+         'reproduced on the real code: KF2 (peer payload size, and ACK of a never-sent MTU probe, taken as '
+         'proof for the forward path -> BugEmsgSizeNoProbe) and D13 (Pending in state Closed, then '
+         'BugRecvInClosed). The extracted predicates c10_step_ok (no PANIC, no EBUG_* under a legitimate '
+         'transport) and c10_bounded are evaluated on every implementation trace, including a hostile '
+         'generator.'}
+
+CHECKS["C02"] = {'design_ref': 'DESIGN.md section 6 C02',
+ 'note': 'Trusted: as C10; wakers are flags plus wake events, the harness uses one counting waker per task. '
+         'No axioms. Known classes reported through known_findings.json ids D2, D8, D9, D14.',
+ 'technique': 'Coq proof (component-level wake-up lemmas lifted to vstep) + refutation witnesses by '
+              'vm_compute + differential correspondence + extracted step/trace predicates on impl traces '
+              '(shared + wake-up generators)',
+ 'text': 'PARTIAL (wake-up half = safety only; eventual delivery and the silence bound are not covered). '
+         'Theorems over every state of the model: a write that stores bytes, and dropping the write half, '
+         'wake the dispatcher parked on the TX waker; a read that returns bytes, and dropping the read half, '
+         'wake the dispatcher parked on the RX waker; UserRx::flush registers the RX dispatcher waker '
+         'whenever less than one creation-time MSS of window is left (the invariant behind the zero-window '
+         'wake-up, true when the MSS has not changed since creation). Refutation witnesses, each reproduced '
+         'on the real code: D2 (poll_shutdown on an idle connection wakes nobody; the next poll, when it '
+         'happens, does emit the FIN), D8 (an in-sequence FIN flushed alone wakes no reader), D9 (zero '
+         'window advertised against the current MSS, waker registered against the creation-time MSS). '
+         'Validated on implementation traces only (no theorem yet): c02_parked_ok (a registered reader waker '
+         'implies an empty user queue and a live connection), c02_timer_ok (sleep armed for the earliest '
+         'timer, self-wake when due), c02_rto_armed (outstanding data => retransmission timer armed; fails '
+         'on the real code in the D14 class), c02_prompt (write / shutdown on an idle established connection '
+         'followed by a poll at the same clock emits ST_DATA / ST_FIN), c02_eof_wakes, '
+         'c02_zero_window_waker, c02_shutdown_wakes.'}
+
 ALL = ["C%02d" % i for i in range(1, 20)]
 NOT_APPLICABLE = {p: "check not built yet at this commit (planned: DESIGN.md section 6); not claimed"
                   for p in ALL if p not in CHECKS}
